@@ -268,7 +268,7 @@ func ruleDiffGuards(c *Ctx, r *Report) {
 
 // ruleDiffSkip: R-DIFF-SKIP — which populated fields findSetLeaves leaves out of a diff.
 func ruleDiffSkip(c *Ctx, r *Report) {
-	r.Rule("R-DIFF-SKIP", "findSetLeaves' iterator silently skips a field only for the documented reasons — zero StructField, annotation field, already-processed path, nil/invalid/default value or map, struct pointer that is not an ordered map treated as a leaf, empty ordered map, unset enum — so every other populated leaf (including zero-length binaries and empty leaf-lists held in non-nil slices) reaches the diff", 7)
+	r.Rule("R-DIFF-SKIP", "findSetLeaves' iterator silently skips a field only for the documented reasons — zero StructField, annotation field, already-processed path, nil/invalid/default value or map, struct pointer that is not an ordered map treated as a leaf, empty ordered map, leaf-list without entries (Binary excluded), unset enum — so every other populated leaf (including zero-length binaries) reaches the diff", 7)
 	f := c.MustFunc(r, "ygot", "findSetLeaves")
 	if f == nil {
 		return
@@ -327,6 +327,10 @@ func ruleDiffSkip(c *Ctx, r *Report) {
 		}
 		n++
 		key := fmt.Sprintf("ygot.findSetLeaves$iter:skip#%d", n)
+		if emptyLeafListCond(info, is.Cond) {
+			r.OK(key, c.Pos(rs.Pos()), "leaf-list without entries (Binary excluded), which the gNMI decoder refuses: "+exprKey(is.Cond))
+			continue
+		}
 		bad := ""
 		ast.Inspect(is.Cond, func(x ast.Node) bool {
 			call, ok := x.(*ast.CallExpr)
